@@ -609,15 +609,22 @@ Definition verdict3 (m s obs : sx) : verdict :=
   if sx_eqb obs s then (if sx_eqb obs m then Agree else Differ m)
   else Violates (SL [m; s]).
 
-(* which = 0: case = (via tree event now tables), obs = 0 | 1 | (2) constructor error *)
+(* the side conditions of c14_check_eq_eval, evaluated by the model with the case's oracle values *)
+Definition t_hyps (t : tables) (n : node) (e : json) : bool :=
+  lower_hyp (tlower t) n e && cont_ok (tlower t) (tre t) (tany t) n e.
+
+(* which = 0: case = (via tree event now tables), obs = 0 | 1 | (2) constructor error.
+   via: bit 0 = built with the New*Node constructors (else NewFromMap); bit 1 = the harness found
+   the side conditions to hold with the real bytes.ToLower — the model re-evaluates them. *)
 Definition c14_check_run (case obs : sx) : verdict :=
   match case with
-  | SL [SZ _; tree; ev; SZ now; tb] =>
+  | SL [SZ via; tree; ev; SZ now; tb] =>
       match node_of_sx tree, json_of_sx ev, tables_of_sx tb with
       | DReject, Some _, Some _ => exact_verdict obs_reject obs
       | DNode n, Some e, Some t =>
           if negb (t_wfb t n) then exact_verdict obs_reject obs
           else if negb (needs_ok t n e) then BadCase
+          else if (2 <=? via) && negb (t_hyps t n e) then BadCase
           else verdict3 (of_bool (t_check t n e now)) (of_bool (t_eval t n e now)) obs
       | _, _, _ => BadCase
       end
@@ -628,7 +635,7 @@ Definition c14_check_run (case obs : sx) : verdict :=
    checker in turn): case = (via (tree ...) (event ...) now tables), obs = ((bit ...) ...) | (2) *)
 Definition c14_seq_run (case obs : sx) : verdict :=
   match case with
-  | SL [SZ _; SL trees; SL evs; SZ now; tb] =>
+  | SL [SZ via; SL trees; SL evs; SZ now; tb] =>
       match opt_map json_of_sx evs, tables_of_sx tb with
       | Some es, Some t =>
           let ds := map node_of_sx trees in
@@ -638,6 +645,7 @@ Definition c14_seq_run (case obs : sx) : verdict :=
           else
             let ns := flat_map (fun d => match d with DNode n => [n] | _ => [] end) ds in
             if negb (forallb (fun e => forallb (fun n => needs_ok t n e) ns) es) then BadCase
+            else if (2 <=? via) && negb (forallb (fun e => forallb (fun n => t_hyps t n e) ns) es) then BadCase
             else
               let m := SL (map (fun e => SL (map (fun n => of_bool (t_check t n e now)) ns)) es) in
               let s := SL (map (fun e => SL (map (fun n => of_bool (t_eval t n e now)) ns)) es) in
